@@ -7,7 +7,7 @@ import random
 import time
 
 from .. import alpha as al
-from .. import codec, engine_s, env
+from .. import codec, engine_s, env, guard
 from .. import lru as L
 from ..alpha import A, Ax, Axy, Ab, Az, Aw, Awx, S, Sx, Sw, Bb, C1
 from ..engine_s import Participant, Query, Atomic
@@ -516,7 +516,17 @@ def run(tier, seed, log=print):
     agg = {}
     seen_tags = {}
     with multiprocessing.get_context("fork").Pool(min(16, os.cpu_count() or 1)) as pool:
-        for args, stats, viols, known, sets, err in pool.imap_unordered(_work, tasks, chunksize=1):
+        results = guard.imap(pool, _work, tasks)
+        while True:
+            try:
+                args, stats, viols, known, sets, err = next(results)
+            except StopIteration:
+                break
+            except guard.Stuck as st:
+                backend, names, bound, shard = st.task
+                pre = shard[0] if isinstance(shard, list) and shard else []
+                seen_tags["request-hangs"] = {"oracle": "request-hangs", "message": "a schedule of this combination does not come back (a request hangs or kills its process)", "choices": list(pre), "trace": list(pre), "preemptions": 0, "backend": backend, "names": names}
+                break
             backend, names, bound, shard = args
             if err:
                 out.harness_errors.append("engine S %s/%s: %s" % (backend, "+".join(names), err))
